@@ -7,3 +7,5 @@ import SparseV.Props.C11
 #print axioms SparseV.C11.frame
 #print axioms SparseV.C11.all_protocols_write_fresh
 #print axioms SparseV.C11.operands_unchanged
+#print axioms SparseV.C11.names_fresh_iff_tagged
+#print axioms SparseV.C11.alias_map_consistent
